@@ -1021,7 +1021,17 @@ pub fn c05_book(out: &mut Outcome, t: bool) {
     q.prices = vec![10, 11];
     q.limit_vols = vec![2];
     q.market_vols = vec![3];
-    plans.push(plan("create/place + toggles, clock {0,+1}", q, 3, if t { 5 } else { 4 }));
+    plans.push(plan("create/place + toggles, clock {0,+1}", q.clone(), 3, if t { 5 } else { 4 }));
+    {
+        // reads at chosen moments between tied operations (one price, one volume: deeper)
+        let mut ob = q.clone();
+        ob.toggles = false;
+        ob.prices = vec![10];
+        ob.limit_vols = vec![2];
+        ob.market_vols = vec![];
+        ob.max_unplaced = 2;
+        with_observe(&mut plans, "create/place at one price, clock {0,+1}", &ob, 3, if t { 7 } else { 6 });
+    }
     // books crossed while trading was off, then an aggressor whose remainder rests on a tied level
     let mut x = core.clone();
     x.name = "ties-crossed-start-off".into();
